@@ -319,3 +319,34 @@ LAST_NEWLINE = Spec(
 @generator("PyFns_Multipart")
 def gen_multipart():
     return emit("Multipart", [LAST_NEWLINE])
+
+
+# --------------------------------------------------------------------------
+# C04: number converters
+
+NUMBER_TO_PYTHON = Spec(
+    module="routing/converters.py",
+    qualname="NumberConverter.to_python",
+    name="number_to_python",
+    # `self.num_convert` (int for IntegerConverter) stays a parameter: text -> number or ValueError
+    opaque=[("num_convert", "Pre.Str → Except String Int")],
+    params=[("self.fixed_digits", "Int"), ("self.min", "Option Int"), ("self.max", "Option Int"), ("value", "Str")],
+    result="Int",
+    raises=True,
+    calls={"self.num_convert": Fn("num_convert", [STR], INT, raises=("ValueError",))},
+)
+
+NUMBER_TO_URL = Spec(
+    module="routing/converters.py",
+    qualname="NumberConverter.to_url",
+    name="number_to_url",
+    # for an `int` value `self.num_convert(value)` = `int(value)` is the value itself
+    params=[("self.fixed_digits", "Int"), ("value", "Int")],
+    result="Str",
+    calls={"self.num_convert": Fn("id", [INT], INT)},
+)
+
+
+@generator("PyFns_Routing")
+def gen_routing():
+    return emit("Routing", [NUMBER_TO_PYTHON, NUMBER_TO_URL])
